@@ -46,8 +46,10 @@ def scalar(draw, v):
 
 
 @st.composite
-def cases(draw, nmax=48):
+def cases(draw, nmax=48, sizes=None):
     N = draw(st.one_of(st.integers(1, nmax // 2).map(lambda k: 2 * k), st.integers(2, nmax)))      # odd grids too: "any complex input"
+    if sizes:
+        N = draw(st.sampled_from(sizes))
     u, kind = draw(field(N))
     v, _ = draw(field(N))
     prop = draw(st.sampled_from(["angular", "angular", "one", "two", "two", "lens"]))
@@ -239,6 +241,9 @@ def thread_body(ctx, case):
 LAWS = [
     plain_law("threads", thread_cases, thread_body, shards={"quick": 4, "thorough": 4}),
     given_law("power_linear_xl", cases(384), body, {"quick": 0, "thorough": 60}, shards={"quick": 1, "thorough": 16}),
+    # the grid sizes simulations are run at (beyond 512 samples, not only powers of two): an implementation may treat large
+    # grids differently (blocking, chunking) from the small ones the other laws draw by the thousand
+    given_law("power_linear_realistic_size", cases(48, sizes=[513, 600, 640, 768, 1000, 1024]), body, {"quick": 8, "thorough": 64}, shards={"quick": 4, "thorough": 16}),
     given_law("power_linear", cases(48), body, {"quick": 1200, "thorough": 12500}, shards={"quick": 3, "thorough": 16}),
     given_law("power_linear_large", cases(96), body, {"quick": 60, "thorough": 1500}, shards={"quick": 3, "thorough": 16}),
 ]
